@@ -117,13 +117,14 @@ func (c *capture) Send(ctx context.Context, msgType uint8, m any, sess kex.Sessi
 }
 
 type result struct {
-	got       []kv
-	writerErr error
-	roundErr  error
-	msgs      int
-	raw       [][]byte // the DeviceServiceInfo messages as sent
-	oversize  string
-	yieldBad  string
+	got        []kv
+	writerErr  error
+	roundErr   error
+	msgs       int
+	raw        [][]byte // the DeviceServiceInfo messages as sent
+	oversize   string
+	overbudget string
+	yieldBad   string
 }
 
 // pipeline runs the producer and the batch loop. spawn starts a goroutine (vsync.Go under the scheduler).
@@ -206,10 +207,19 @@ func pipeline(s script, spawn func(func()), wait func(done *bool)) result {
 	}
 	res.msgs = len(cap.msgs)
 	res.raw = cap.raw
-	// budgets: every message fits the negotiated MTU
+	// budgets: every message fits the negotiated MTU, and the batch of chunks packed into it fits the budget the
+	// batch loop was given (MTU less the 5 octets reserved for the message framing)
 	for i, b := range cap.raw {
 		if len(b) > int(s.mtu) && res.oversize == "" {
 			res.oversize = fmt.Sprintf("DeviceServiceInfo message %d is %d bytes, MTU %d", i, len(b), s.mtu)
+		}
+		sum := 0
+		for _, c := range cap.msgs[i] {
+			enc, _ := cbor.Marshal(c)
+			sum += len(enc)
+		}
+		if sum > int(s.mtu)-5 && res.overbudget == "" {
+			res.overbudget = fmt.Sprintf("the %d chunks packed into DeviceServiceInfo message %d encode to %d bytes, the batch was given %d", len(cap.msgs[i]), i, sum, int(s.mtu)-5)
 		}
 	}
 	// reassembly with the real ChunkWriter/UnchunkReader
@@ -281,6 +291,9 @@ func judgeTo(s script, res result, mode string, viol func(key, what string)) {
 	}
 	if res.oversize != "" {
 		viol("exceeds-mtu", fmt.Sprintf("%s [%s]: %s", s, mode, res.oversize))
+	}
+	if res.overbudget != "" {
+		viol("batch-exceeds-budget", fmt.Sprintf("%s [%s]: %s", s, mode, res.overbudget))
 	}
 }
 
@@ -568,6 +581,22 @@ func schedScripts(thorough bool) []script {
 	if thorough {
 		scripts = append(scripts, script{mtu: 28, buffered: 1, msgs: []msg{{"m", "k", val(20, 1), 3, false}, {"m", "l", val(20, 2), 1, false}, {"m", "l", val(1, 3), 1, true}}})
 	}
+	// the exact head-length boundary scripts of the sweep once more under the scheduler with NO preemption (bound 0:
+	// run-until-block order, free choices still explored): the free-running sweep decides chunk boundaries by timing,
+	// which a loaded machine changes; here the first entry and the start of the second always share a message
+	for _, mtu := range []uint16{128, 300, 1300} {
+		for _, klen := range []int{20, 21, 22, 23, 24} {
+			name := strings.Repeat("k", klen)
+			for _, vlen := range []int{1, 22, 23, 24, 25, 26, 254, 255, 256, 257} {
+				if vlen+klen+12 > int(mtu) {
+					continue
+				}
+				for _, buffered := range []int{0, 16} {
+					scripts = append(scripts, script{mtu: mtu, buffered: buffered, bound: -1, msgs: []msg{{"m", name, val(vlen, 1), 1, false}, {"n", "z", val(2*int(mtu), 9), 1, false}}})
+				}
+			}
+		}
+	}
 	return scripts
 }
 
@@ -584,6 +613,9 @@ func schedulesShard(shard, n int, thorough bool) *schedshard.Report {
 			if thorough {
 				bound++
 			}
+		}
+		if s.bound < 0 {
+			bound = 0
 		}
 		sc := schedshard.Scenario{Name: s.String(), Bound: bound, Outcomes: map[string]int{}}
 		var commit func() // committed by visit: once per execution over all shards
@@ -684,7 +716,7 @@ func main() {
 	if !r.Quick() {
 		bound = 3
 	}
-	r.Rule(fmt.Sprintf("(A0) the real ChunkReader.ReadChunk called with EVERY budget 1..700 (thorough 1..1400) for 8 (thorough 60) key lengths with more value bytes pending than fit: each returned chunk encodes within its budget, bytes handed out equal bytes written, a refusal only when key plus one value byte cannot fit. (A) size sweep on the real pipeline UnchunkWriter -> ChunkReader -> exchangeServiceInfoRound (re-exported, recording transport) -> ChunkWriter -> UnchunkReader: MTUs from 24 through 96 (quick: 16 values) and {128,255,256,257,300,320,1300,65535}, key lengths {1,2,5,12,23,24,25,40}, first-message sizes chosen so that the space left in the batch before the next key takes EVERY remainder 0..40, value lengths {1, mtu-1, mtu, mtu+1, 3*mtu}, values written in 1 or 3 writes, with and without yield, buffered and unbuffered pipes; every MTU 24..420 (thorough ..1400) with one value longer than two messages; remainders 250..300 before a second key at MTU 700 and 1300. (B) the same pipeline built from the current serviceinfo/chunk.go and to2.go rewritten onto the cooperative-scheduler shims: ALL interleavings of the producer thread and the batch loop with at most %d preemptions for %d small scripts (two of them with the consumer closing the writer while the producer is still writing) (every channel operation, select, mutex operation, pipe operation and goroutine start is a scheduling point; select picks are free choices). Oracle: reassembled (key, bytes) sequence equals the written one (consecutive equal keys merged), no error seen by writer or batch loop, every DeviceServiceInfo message <= MTU, no deadlock, livelock or panic on any schedule. states = executions (schedules), transitions = scheduling steps. (A2) owner side: every sequence of up to 4 (thorough 5) service infos over two keys of one module x 4 value-size profiles x MTU {1300, 256} is sent by the real device pipeline and handed message by message to the REAL owner responder (TO2Server.Respond(68) with a recording owner module): it answers every message and the module receives exactly what was written, also when a key comes back after another key inside one message.", bound, 5))
+	r.Rule(fmt.Sprintf("(A0) the real ChunkReader.ReadChunk called with EVERY budget 1..700 (thorough 1..1400) for 8 (thorough 60) key lengths with more value bytes pending than fit: each returned chunk encodes within its budget, bytes handed out equal bytes written, a refusal only when key plus one value byte cannot fit. (A) size sweep on the real pipeline UnchunkWriter -> ChunkReader -> exchangeServiceInfoRound (re-exported, recording transport) -> ChunkWriter -> UnchunkReader: MTUs from 24 through 96 (quick: 16 values) and {128,255,256,257,300,320,1300,65535}, key lengths {1,2,5,12,23,24,25,40}, first-message sizes chosen so that the space left in the batch before the next key takes EVERY remainder 0..40, value lengths {1, mtu-1, mtu, mtu+1, 3*mtu}, values written in 1 or 3 writes, with and without yield, buffered and unbuffered pipes; every MTU 24..420 (thorough ..1400) with one value longer than two messages; remainders 250..300 before a second key at MTU 700 and 1300. (B) the same pipeline built from the current serviceinfo/chunk.go and to2.go rewritten onto the cooperative-scheduler shims: ALL interleavings of the producer thread and the batch loop with at most %d preemptions for %d small scripts (two of them with the consumer closing the writer while the producer is still writing) (every channel operation, select, mutex operation, pipe operation and goroutine start is a scheduling point; select picks are free choices); plus the sweep's exact head-length boundary scripts (first entry of exactly 23..26 / 254..257 octets, second value two messages long) under the scheduler without preemption, so that chunk boundaries do not depend on timing. Oracle: reassembled (key, bytes) sequence equals the written one (consecutive equal keys merged), no error seen by writer or batch loop, every DeviceServiceInfo message <= MTU and the chunks packed into it encode to no more than the budget the batch loop was given (MTU - 5), no deadlock, livelock or panic on any schedule. states = executions (schedules), transitions = scheduling steps. (A2) owner side: every sequence of up to 4 (thorough 5) service infos over two keys of one module x 4 value-size profiles x MTU {1300, 256} is sent by the real device pipeline and handed message by message to the REAL owner responder (TO2Server.Respond(68) with a recording owner module): it answers every message and the module receives exactly what was written, also when a key comes back after another key inside one message.", bound, 5))
 	if r.Replay != "" {
 		replay(r.Replay)
 		return
